@@ -34,7 +34,8 @@ POSTCONDITION Post
 """
 
 
-EXPORTS = ("internal/target/remote/verif_export_dane.go", "internal/target/remote/verif_export_danerounds.go")
+EXPORTS = ("internal/target/remote/verif_export_dane.go", "internal/target/remote/verif_export_danerounds.go",
+           "internal/target/remote/verif_export_danelevels.go")
 
 
 def nontrivial(row):
@@ -157,13 +158,21 @@ def run(ctx, replay):
     ctx.cov["evaluations"] = len(rows)
     ctx.cov["distinct_nontrivial"] = sum(1 for row in rows if nontrivial(row))
     ctx.cov["discovery_rows"] = sum(1 for row in rows if row["in"]["rounds"][0]["lookup"] == "disc")
+    ctx.cov["wire_rows"] = sum(1 for row in rows if row["in"]["rounds"][0]["lookup"] == "wire")
+    ctx.cov["rows_by_incoming_levels"] = {}
+    for row in rows:
+        for rd in row["in"]["rounds"]:
+            k = rd["mxl"] + "/" + rd["tll"]
+            ctx.cov["rows_by_incoming_levels"][k] = ctx.cov["rows_by_incoming_levels"].get(k, 0) + 1
     ctx.cov["history_rows"] = {"seq2": sum(1 for row in rows if row["in"]["mode"] == "seq" and len(row["in"]["rounds"]) == 2),
                                "seq3": sum(1 for row in rows if row["in"]["mode"] == "seq" and len(row["in"]["rounds"]) == 3),
                                "overlap2": sum(1 for row in rows if row["in"]["mode"] == "overlap")}
     ctx.cov["rule"] = ("rows = states of Dane.tla: every multiset of <=4 record classes (EE/TA/unusable x data "
                        "matching leaf/intermediate/root/nothing) x 5 chains x handshake, concretised over all raw "
                        "usage/selector/matching-type values by rotation (salts), every single raw record, lookup "
-                       "outcomes, the discovery table, and histories of 2 and 3 MX candidates (9 situations each) served "
+                       "outcomes, the discovery table, every RRset also published in a signed zone and fetched through the real "
+                       "resolver path (lookup = wire), the incoming (MX level, TLS level) of CheckConn rotated over all 9 "
+                       "combinations and fully crossed with the decisive record situations, and histories of 2 and 3 MX candidates (9 situations each) served "
                        "by one delivery object, in order and with an abandoned first attempt whose lookup answers late; "
                        "distinct by construction (TLC states); non-trivial = a history of several MXs, a usable record, "
                        "records without a handshake, or a lookup/discovery outcome other than ok")
